@@ -10,7 +10,8 @@ namespace Grog.C09
 open Grog
 
 /-- two target states agree on everything the property lists: label, command, the *set* of
-    (input path, content) pairs, declared outputs, dependency output digests, fingerprint entries,
+    (input path, content) pairs, declared outputs, the output digest of every dependency (by dependency
+    label), fingerprint entries,
     platform (`none` = multiplatform-cache) -/
 def StateEq (a b : KeyState) : Prop :=
   a.label = b.label ∧ a.command = b.command ∧
@@ -25,7 +26,8 @@ structure WFState (s : KeyState) : Prop where
   command : Small s.command
   inputs : SmallList s.inputs
   outputs : SmallList s.outputs
-  deps : SmallList s.deps
+  deps : SmallKV s.deps
+  depKeys : (s.deps.map Prod.fst).Nodup
   fingerprint : SmallKV s.fingerprint
   fpKeys : (s.fingerprint.map Prod.fst).Nodup
   platform : ∀ p, s.platform = some p → Small p
@@ -43,14 +45,14 @@ theorem field_append_inj {a b r r' : Bytes} (ha : Small a) (hb : Small b)
 /-- the definition stream determines every canonical component -/
 theorem enc_injective (a b : KeyState) (wa : WFState a) (wb : WFState b) (h : enc a = enc b) :
     a.label = b.label ∧ a.command = b.command ∧ canonInputs a = canonInputs b ∧
-    sortBytes a.outputs = sortBytes b.outputs ∧ sortBytes a.deps = sortBytes b.deps ∧
+    sortBytes a.outputs = sortBytes b.outputs ∧ sortKV a.deps = sortKV b.deps ∧
     sortKV a.fingerprint = sortKV b.fingerprint ∧ a.platform = b.platform := by
   simp only [enc, List.append_assoc] at h
   obtain ⟨h1, h⟩ := field_append_inj' wa.label wb.label h
   obtain ⟨h2, h⟩ := field_append_inj' wa.command wb.command h
   obtain ⟨h3, h⟩ := listEnc_append_inj (smallList_canon wa.inputs) (smallList_canon wb.inputs) h
   obtain ⟨h4, h⟩ := listEnc_append_inj (smallList_sort wa.outputs) (smallList_sort wb.outputs) h
-  obtain ⟨h5, h⟩ := listEnc_append_inj (smallList_sort wa.deps) (smallList_sort wb.deps) h
+  obtain ⟨h5, h⟩ := kvEnc_append_inj (smallKV_sort wa.deps) (smallKV_sort wb.deps) h
   obtain ⟨h6, h⟩ := kvEnc_append_inj (smallKV_sort wa.fingerprint) (smallKV_sort wb.fingerprint) h
   refine ⟨h1, h2, h3, h4, h5, h6, ?_⟩
   cases hpa : a.platform with
@@ -91,7 +93,7 @@ theorem enc_eq_of_stateEq (a b : KeyState) (wa : WFState a) (h : StateEq a b) :
   obtain ⟨h1, h2, h3, h4, h5, h6, h7, h8⟩ := h
   have hc : canonInputs a = canonInputs b := (compactB_sort_eq_iff _ _).mpr h3
   refine ⟨?_, ?_, ?_⟩
-  · simp only [enc, hc, h1, h2, h8, (sortBytes_eq_iff _ _).mpr h5, (sortBytes_eq_iff _ _).mpr h6,
+  · simp only [enc, hc, h1, h2, h8, (sortBytes_eq_iff _ _).mpr h5, (sortKV_eq_iff _ _ wa.depKeys).mpr h6,
       (sortKV_eq_iff _ _ wa.fpKeys).mpr h7]
   · unfold encFiles
     rw [← hc]
@@ -128,7 +130,7 @@ theorem key_eq_iff (H : Bytes → Bytes) (hH : ∀ x y, H x = H y → x = y) (hU
       intro he hie hf
       obtain ⟨h1, h2, h3, h4, h5, h6, h7⟩ := enc_injective a b wa wb he
       have hin := (compactB_sort_eq_iff _ _).mp h3
-      refine ⟨h1, h2, hin, ?_, (sortBytes_eq_iff _ _).mp h4, (sortBytes_eq_iff _ _).mp h5,
+      refine ⟨h1, h2, hin, ?_, (sortBytes_eq_iff _ _).mp h4, (sortKV_eq_iff _ _ wa.depKeys).mp h5,
         (sortKV_eq_iff _ _ wa.fpKeys).mp h6, h7⟩
       cases hia : a.inputs.isEmpty with
       | true => intro p hp; simp [List.isEmpty_iff.mp hia] at hp
@@ -148,6 +150,42 @@ theorem key_eq_iff (H : Bytes → Bytes) (hH : ∀ x y, H x = H y → x = y) (hU
     obtain ⟨e1, e2, e3⟩ := enc_eq_of_stateEq a b wa h
     unfold key
     rw [e1, e2, e3]
+
+/-- The same without any global assumption on the hash: if two well-formed states receive the same key then they are
+    equal states **or an explicit collision of `H` is exhibited** on the streams of these two states (the form DESIGN §4
+    promises; `key_eq_iff` is the special case of a collision-free `H`). -/
+theorem key_eq_state_or_collision (H : Bytes → Bytes) (hU : ∀ x, cUnderscore ∉ H x)
+    (a b : KeyState) (wa : WFState a) (wb : WFState b) (h : key H a = key H b) :
+    StateEq a b ∨ (enc a ≠ enc b ∧ H (enc a) = H (enc b)) ∨
+      (encFiles a ≠ encFiles b ∧ H (encFiles a) = H (encFiles b)) := by
+  unfold key at h
+  have fin : enc a = enc b → (a.inputs.isEmpty = b.inputs.isEmpty) →
+      (a.inputs.isEmpty = false → encFiles a = encFiles b) → StateEq a b := by
+    intro he hie hf
+    obtain ⟨h1, h2, h3, h4, h5, h6, h7⟩ := enc_injective a b wa wb he
+    have hin := (compactB_sort_eq_iff _ _).mp h3
+    refine ⟨h1, h2, hin, ?_, (sortBytes_eq_iff _ _).mp h4, (sortKV_eq_iff _ _ wa.depKeys).mp h5,
+      (sortKV_eq_iff _ _ wa.fpKeys).mp h6, h7⟩
+    cases hia : a.inputs.isEmpty with
+    | true => intro p hp; simp [List.isEmpty_iff.mp hia] at hp
+    | false => exact encFiles_injective a b wa wb h3 (hf hia)
+  cases hia : a.inputs.isEmpty <;> cases hib : b.inputs.isEmpty <;>
+    simp only [hia, hib, Bool.false_eq_true, if_false, if_true] at h
+  · obtain ⟨e1, e2⟩ := append_sep_inj (hU _) (hU _) h
+    by_cases he : enc a = enc b
+    · by_cases hf : encFiles a = encFiles b
+      · exact Or.inl (fin he (by rw [hia, hib]) (fun _ => hf))
+      · exact Or.inr (Or.inr ⟨hf, e2⟩)
+    · exact Or.inr (Or.inl ⟨he, e1⟩)
+  · have : cUnderscore ∈ H (enc b) := by
+      rw [← h]; exact List.mem_append_right _ List.mem_cons_self
+    exact absurd this (hU _)
+  · have : cUnderscore ∈ H (enc a) := by
+      rw [h]; exact List.mem_append_right _ List.mem_cons_self
+    exact absurd this (hU _)
+  · by_cases he : enc a = enc b
+    · exact Or.inl (fin he (by rw [hia, hib]) (fun hf => by rw [hia] at hf; cases hf))
+    · exact Or.inr (Or.inl ⟨he, h⟩)
 
 /-- The key does not depend on declaration / glob order, on duplicates among the resolved inputs, or on
     map iteration order (no hypothesis on the hash function is needed for this direction). -/
@@ -193,7 +231,7 @@ theorem hexId_injective : ∀ x y, hexId x = hexId y → x = y
 def exA : KeyState :=
   { label := [47, 47, 112, 58, 116], command := [99], inputs := [[98], [97], [98]],
     content := fun p => if p = [97] then some [1, 2] else none,
-    outputs := [[111], [110]], deps := [[100]], fingerprint := [([107], [118])], platform := some [108] }
+    outputs := [[111], [110]], deps := [([100], [104])], fingerprint := [([107], [118])], platform := some [108] }
 def exB : KeyState :=
   { exA with inputs := [[97], [98]], outputs := [[110], [111]] }
 
@@ -203,7 +241,8 @@ example : WFState exA ∧ StateEq exA exB ∧ key hexId exA = key hexId exB := b
       command := by unfold Small; decide
       inputs := by unfold SmallList Small; decide
       outputs := by unfold SmallList Small; decide
-      deps := by unfold SmallList Small; decide
+      deps := by unfold SmallKV Small; decide
+      depKeys := by decide
       fingerprint := by unfold SmallKV Small; decide
       fpKeys := by decide
       platform := by
@@ -266,13 +305,17 @@ theorem old_dup_input_witness :
 
 
 /-- Equal output hashes ⇒ the multisets of per-output digests are equal (each digest covers the marshalled
-    output message: definition, content digest, executable bit). `H` injective and of fixed width `w`. -/
-theorem outHash_inj (H : Bytes → Bytes) (hH : ∀ x y, H x = H y → x = y) (w : Nat) (hw : 0 < w)
-    (hlen : ∀ x, (H x).length = w) (xs ys : List Bytes) (h : outHash H xs = outHash H ys) :
+    output message: definition, content digest, executable bit). The digest has fixed width `w` (hex of a fixed number
+    of bytes), so it cannot be injective on all byte strings: the hypothesis is collision-freeness **on the streams that
+    occur** (`Occ`), here the two concatenated digest streams. -/
+theorem outHash_inj (H : Bytes → Bytes) (Occ : Bytes → Prop) (hH : ∀ x y, Occ x → Occ y → H x = H y → x = y)
+    (w : Nat) (hw : 0 < w) (hlen : ∀ x, (H x).length = w) (xs ys : List Bytes)
+    (ho1 : Occ (sortBytes (xs.map H)).flatten) (ho2 : Occ (sortBytes (ys.map H)).flatten)
+    (h : outHash H xs = outHash H ys) :
     (xs.map H).Perm (ys.map H) := by
   unfold outHash at h
   cases hx : xs.isEmpty <;> cases hy : ys.isEmpty <;> simp only [hx, hy] at h
-  · have hf := hH _ _ h
+  · have hf := hH _ _ ho1 ho2 h
     have := flatten_inj_of_width w hw _ _
       (fun x hx => by
         obtain ⟨z, _, rfl⟩ := List.mem_map.mp (mem_sortBytes.mp hx); exact hlen z)
@@ -290,13 +333,34 @@ theorem serOutput_injective (a b : Proto.Output) (h : Proto.serOutput a = Proto.
   Proto.serOutput_injective' h
 
 /-- Equal output hashes ⇒ equal multisets of outputs (definition, digest, size, executable bit): no
-    hypothesis on the marshalling is left, only on the hash function. -/
-theorem outHash_outputs_inj (H : Bytes → Bytes) (hH : ∀ x y, H x = H y → x = y) (w : Nat) (hw : 0 < w)
+    hypothesis on the marshalling is left, only collision-freeness of the (fixed-width) hash on the streams that occur:
+    the marshalled outputs of both lists and the two concatenated digest streams. -/
+theorem outHash_outputs_inj (H : Bytes → Bytes) (Occ : Bytes → Prop)
+    (hH : ∀ x y, Occ x → Occ y → H x = H y → x = y) (w : Nat) (hw : 0 < w)
     (hlen : ∀ x, (H x).length = w) (xs ys : List Proto.Output)
+    (hox : ∀ o ∈ xs, Occ (Proto.serOutput o)) (hoy : ∀ o ∈ ys, Occ (Proto.serOutput o))
+    (ho1 : Occ (sortBytes ((xs.map Proto.serOutput).map H)).flatten)
+    (ho2 : Occ (sortBytes ((ys.map Proto.serOutput).map H)).flatten)
     (h : outHash H (xs.map Proto.serOutput) = outHash H (ys.map Proto.serOutput)) : xs.Perm ys := by
-  have h1 := outHash_inj H hH w hw hlen _ _ h
-  have h2 := Proto.perm_of_map_perm H hH _ _ h1
+  have h1 := outHash_inj H Occ hH w hw hlen _ _ ho1 ho2 h
+  have h2 := Proto.perm_of_map_perm_on H _ _ (fun a ha b hb e => by
+    obtain ⟨oa, hoa, rfl⟩ := List.mem_map.mp ha
+    obtain ⟨ob, hob, rfl⟩ := List.mem_map.mp hb
+    exact hH _ _ (hox oa hoa) (hoy ob hob) e) h1
   exact Proto.perm_of_map_perm Proto.serOutput (fun a b => Proto.serOutput_injective') _ _ h2
+
+/-- the hypotheses are satisfiable with a genuinely fixed-width hash: `H x` = first byte of `x` (width 1), which is
+    collision-free on the one-byte strings; two one-element output lists whose digests are one byte long -/
+example :
+    let H : Bytes → Bytes := fun x => [x.headD 0]
+    let Occ : Bytes → Prop := fun x => x.length = 1
+    (∀ x y, Occ x → Occ y → H x = H y → x = y) ∧ (∀ x, (H x).length = 1) ∧
+      Occ (sortBytes ([[5]].map H)).flatten ∧ outHash H [[5]] = outHash H [[5]] := by
+  refine ⟨?_, fun _ => rfl, ?_, rfl⟩
+  · intro x y hx hy h
+    match x, y, hx, hy with
+    | [a], [b], _, _ => simpa using h
+  · simp [sortBytes]
 
 /-- …and the output hash is independent of the order in which outputs were written. -/
 theorem outHash_order_independent (H : Bytes → Bytes) (xs ys : List Bytes) (h : xs.Perm ys) :
